@@ -40,6 +40,7 @@ SHIM = os.path.join(HERE, "build", "ifshim.so")
 PY = "/venv/bin/python"
 UNUSED_PID = 0x7FFFFFF0            # > PID_MAX_LIMIT (4194304): never allocated by Linux
 WORKER_TIMEOUT = 600               # s, per worker process (generous: only a real hang reaches it)
+SOLO_TIMEOUT = 120                 # s, one case alone (confirmation / replay)
 NAME15 = "abcdefghijklmno"
 
 # =============================================================================
@@ -578,29 +579,32 @@ def ref_partitions(raw, all_):
     return out
 
 
-def check_mounts(label, got, readings, key=lambda x: x):
-    """got must equal one of the acceptable readings"""
-    msgs = []
+def check_mounts(label, got, readings):
+    """got must equal one of the acceptable readings; otherwise report against the closest one"""
+    best = None
     for exp in readings:
         m = _cmp_mounts(got, exp)
         if m is None:
             return []
-        msgs.append(m)
-    return [msgs[0]]
+        if best is None or m[0] > best[0]:
+            best = m
+    return [best[1]]
 
 
 def _cmp_mounts(got, exp):
-    if len(got) != len(exp):
-        return ("wrong-value:disk_partitions:entry-count",
-                "got %d entries, expected %d: got=%s" % (len(got), len(exp), _short(repr(got), 300)))
+    """None if equal, else (position of the first difference, (cause, msg))"""
     names = ("device", "mountpoint", "fstype", "opts")
     for i, (g, e) in enumerate(zip(got, exp)):
         for k in range(4):
             ok = (g[k] in e[k]) if isinstance(e[k], set) else (g[k] == e[k])
             if not ok:
                 ev = sorted(e[k])[0] if isinstance(e[k], set) else e[k]
-                return ("wrong-value:disk_partitions:%s" % names[k],
-                        "entry %d: %s = %s, expected %s" % (i, names[k], _short(repr(g[k])), _short(repr(ev))))
+                return ((i, k), ("wrong-value:disk_partitions:%s" % names[k],
+                                 "entry %d: %s = %s, expected %s" % (i, names[k], _short(repr(g[k])), _short(repr(ev)))))
+    if len(got) != len(exp):
+        return ((min(len(got), len(exp)), -1),
+                ("wrong-value:disk_partitions:entry-count",
+                 "got %d entries, expected %d: got=%s" % (len(got), len(exp), _short(repr(got), 300))))
     return None
 
 
@@ -911,6 +915,12 @@ class Worker:
         self.libc.utmpname(self.utmp.encode())
         self.child = int(os.environ.get("VF_C17_CHILD", "0") or 0)
         self.wenv = {"child": self.child, "tmp": tmp, "mounts": self.mounts}
+        # the private procfs must still show the two processes part A talks about (Process(pid) reads
+        # <procfs>/<pid>/stat and <procfs>/stat); everything else in it is written by this check
+        for n in ["stat", str(os.getpid())] + ([str(self.child)] if self.child else []):
+            dst = os.path.join(self.proc, n)
+            if not os.path.lexists(dst):
+                os.symlink("/proc/" + n, dst)
         self.default_world()
         os.chdir(tmp)
 
@@ -1043,7 +1053,7 @@ class Worker:
                 viol.append(("wrong-value:net_if_addrs:unexpected-exception", "%s: %s" % (type(e).__name__, str(e)[:200])))
             else:
                 viol += check_if_addrs(got, exp)
-            sk = sorted({"%s/%s/m=%s/u=%s/fl=%x/%s" % (_sk(a["a"]), a["if"], _sk(a["m"]), _sk(a["u"]), a["fl"] & 0x12, "")
+            sk = sorted({"%s/%s/m=%s/u=%s/fl=%x" % (_sk(a["a"]), a["if"], _sk(a["m"]), _sk(a["u"]), a["fl"] & 0x12)
                          for a in case["addrs"]})
             key = "if_addrs[n=%d,%s]->%s" % (len(case["addrs"]), ";".join(sk), ":".join(map(str, out)))
         else:
@@ -1124,10 +1134,17 @@ def _worker_env(tmp, child_pid):
     return e
 
 
+def _die_with_parent():
+    import ctypes
+    ctypes.CDLL(None).prctl(1, 9)        # PR_SET_PDEATHSIG, SIGKILL: no orphans if the driver is killed
+
+
 def _spawn_child():
+    """the sacrificial process setters are pointed at (never anything else that is alive)"""
     env = {k: v for k, v in os.environ.items() if k not in ("LD_PRELOAD", "VF_IFSHIM")}
     return subprocess.Popen(["/bin/sleep", "1800"], env=env, stdin=subprocess.DEVNULL,
-                            stdout=subprocess.DEVNULL, stderr=subprocess.DEVNULL, close_fds=True)
+                            stdout=subprocess.DEVNULL, stderr=subprocess.DEVNULL, close_fds=True,
+                            preexec_fn=_die_with_parent)
 
 
 def _norm_report(text):
@@ -1147,6 +1164,7 @@ def _norm_report(text):
         kind = m.group(1) if m else "error"
         where = summ[0] if summ else asan[0]
         where = re.sub(r"\s*\(.*?\+0x\.\.\)", "", where)
+        where = re.sub(r"\s*\(BuildId: \w+\)", "", where)
         return "ASan:" + kind, where[:300]
     tail = [l for l in lines if l][-3:]
     return "died", " | ".join(tail)[:300]
@@ -1180,7 +1198,7 @@ def _run_worker(cases, tmp, child_pid, timeout=WORKER_TIMEOUT):
     with open(errfile, "wb") as ef:
         p = subprocess.Popen([PY, "-m", "vf.checks.c17", "--worker", casefile, outfile],
                              env=_worker_env(tmp, child_pid), cwd=HERE, stdin=subprocess.DEVNULL,
-                             stdout=subprocess.DEVNULL, stderr=ef)
+                             stdout=subprocess.DEVNULL, stderr=ef, preexec_fn=_die_with_parent)
         try:
             rc = p.wait(timeout=timeout)
         except subprocess.TimeoutExpired:
@@ -1229,7 +1247,8 @@ def _run_chunk(job):
     try:
         pending = list(cases)
         while pending:
-            res, died = _run_worker(pending, tmp, child.pid if child else 0)
+            res, died = _run_worker(pending, tmp, child.pid if child else 0,
+                                    SOLO_TIMEOUT if len(pending) == 1 else WORKER_TIMEOUT)
             upto = len(pending) if died is None else died["index"]
             for i in range(upto):
                 out.append((pending[i], res[i]))
@@ -1240,7 +1259,7 @@ def _run_chunk(job):
             pending = pending[died["index"] + 1:]
             # confirm alone (this is what replay() will do)
             if died["index"] > 0:
-                _, solo = _run_worker([bad], tmp, child.pid if child else 0)
+                _, solo = _run_worker([bad], tmp, child.pid if child else 0, SOLO_TIMEOUT)
             else:
                 solo = died
             if solo is not None:
@@ -1263,6 +1282,16 @@ def _run_chunk(job):
             child.wait()
         shutil.rmtree(tmp, ignore_errors=True)
     return out
+
+
+def _witness_rank(case):
+    """the driver stores the first case of every cause: put the most telling witness first"""
+    if case.get("part") == "D" and case.get("call") == "stats" and len(case["ifs"]) == 1:
+        it = case["ifs"][0]
+        # duplex/speed "unknown" is what the kernel answers for a NIC without link
+        if it["eth"] == [255, 0xFFFF, 0xFFFF] and it["mtu"] == 1500 and it["flags"] == 0x1043:
+            return 0
+    return 1
 
 
 def _case_label(c):
@@ -1339,7 +1368,8 @@ def run(ctx):
                 violations.append({"cause": cause, "msg": msg, "case": case})
             if r["viol"]:
                 pp["violating"] += 1
-    violations.sort(key=lambda v: (v["cause"], len(json.dumps(v["case"])), json.dumps(v["case"], sort_keys=True)))
+    violations.sort(key=lambda v: (v["cause"], _witness_rank(v["case"]), len(json.dumps(v["case"])),
+                                   json.dumps(v["case"], sort_keys=True)))
     total = sum(p["cases"] for p in per_part.values())
     assert total == sum(len(v) for v in parts.values()), "lost cases"
     distinct = sum(len(p["distinct"]) for p in per_part.values())
